@@ -366,10 +366,10 @@ def entry_points(dtype=np.float64, seed=0):
     def reg(name, build):
         E[name] = build
 
-    def simple(name, fn, argf, inplace=(), skel=None):
+    def simple(name, fn, argf, inplace=(), skel=None, ep=None):
         def build():
             d = D()
-            return dict(fn=fn, args=tuple(argf(d)), inplace=set(inplace), skel=skel)
+            return dict(fn=fn, args=tuple(argf(d)), inplace=set(inplace), skel=skel, ep=ep)
         reg(name, build)
 
     cpt = lambda d, w=None, fs=None: CPTensor(((d.w if w is None else w).copy(), [f.copy() for f in (d.fs if fs is None else fs)]))
@@ -421,7 +421,7 @@ def entry_points(dtype=np.float64, seed=0):
     simple("nn_parafac_hals_init_cptensor", lambda X, i, sc, fm: non_negative_parafac_hals(X, R, n_iter_max=2, init=i, sparsity_coefficients=sc, fixed_modes=fm), lambda d: (d.X, cpt(d, d.w1), None, None), skel=HK)
     simple("nn_parafac_hals_init_sparsity_fixed", lambda X, i, sc, fm: non_negative_parafac_hals(X, R, n_iter_max=2, init=i, sparsity_coefficients=sc, fixed_modes=fm), lambda d: (d.X, (d.w1, d.fs), [0.1, 0.1, 0.1], [0]), skel=HK)
     simple("nn_parafac_hals_sparsity_fixed", lambda X, sc, fm: non_negative_parafac_hals(X, R, n_iter_max=2, sparsity_coefficients=sc, fixed_modes=fm), lambda d: (d.X, [0.1, 0.1, 0.1], [0]))
-    simple("nn_parafac_hals_init_exact_nnmodes", lambda X, i: non_negative_parafac_hals(X, R, n_iter_max=2, init=i, exact=True, nn_modes=[0, 2], normalize_factors=True), lambda d: (d.X, (d.w1, d.fs)))
+    simple("nn_parafac_hals_init_exact_nnmodes", lambda X, i: non_negative_parafac_hals(X, R, n_iter_max=1, init=i, exact=True, nn_modes=[2], normalize_factors=True), lambda d: (d.X, (d.w1, d.fs)))
     simple("nn_parafac_hals_init_fail_cvg", lambda X, i, sc, fm: non_negative_parafac_hals(X, R, n_iter_max=4, init=i, sparsity_coefficients=sc, fixed_modes=fm, cvg_criterion="bogus"), lambda d: (d.X, (d.w1, d.fs), [0.1, 0.1, 0.1], [0]), skel=HK)
     simple("CP_NN_HALS_class_init", lambda X, i, sc, fm: CP_NN_HALS(R, n_iter_max=2, init=i, sparsity_coefficients=sc, fixed_modes=fm).fit_transform(X), lambda d: (d.X, (d.w1, d.fs), [0.1, 0.1, 0.1], [0]))
     for cname, kw in [("nonneg", dict(non_negative=True)), ("l1", dict(l1_reg=0.1)), ("l2", dict(l2_reg=0.1)), ("l2sq", dict(l2_square_reg=0.1)),
@@ -554,7 +554,10 @@ def entry_points(dtype=np.float64, seed=0):
     simple("cp_to_unfolded_vec", lambda cp: (cp_to_unfolded(cp, 1), cp_to_vec(cp), cp_norm(cp)), lambda d: ((d.w, d.fs),))
     simple("cp_lstsq_grad_mask", lambda cp, X, m: cp_lstsq_grad(cp, X, return_loss=True, mask=m), lambda d: (cpt(d), d.X, d.mask))
     simple("cp_copy_method", lambda cp: cp.cp_copy(), lambda d: (cpt(d),))
-    simple("cp_methods", lambda cp: (cp.to_tensor(), cp.to_vec(), cp.to_unfolded(0), cp.norm(), cp.normalize(), cp.mode_dot(np.ones((2, 3), dtype=dtype), 1, copy=True)), lambda d: (cpt(d),))
+    simple("cp_methods", lambda cp: (cp.to_tensor(), cp.to_vec(), cp.to_unfolded(0), cp.norm(), cp.cp_copy(), cp.mode_dot(np.ones((2, 3), dtype=dtype), 1, copy=True), cp.mode_dot(np.ones(3, dtype=dtype), 1)), lambda d: (cpt(d),))
+    # CPTensor.normalize() / TuckerTensor.normalize() are mutator methods: their docstrings say "the tensor modifies itself" /
+    # "Transforms the tucker_tensor ...", i.e. the receiver is a parameter documented as updated in place
+    simple("cp_normalize_method", lambda cp: cp.normalize(), lambda d: (cpt(d),), inplace=[0], skel=("KCpNormalizeMethod", [0]))
     simple("cp_mode_dot_copy_matrix", lambda cp, Mx: cp_mode_dot(cp, Mx, 1, copy=True), lambda d: (cpt(d), d.mat))
     simple("cp_mode_dot_copy_matrix_tuple", lambda cp, Mx: cp_mode_dot(cp, Mx, 1, copy=True), lambda d: ((d.w, d.fs), d.mat))
     simple("cp_mode_dot_copy_vector", lambda cp, v: cp_mode_dot(cp, v, 1, copy=True), lambda d: (cpt(d), d.vec), skel=("KModeDotCopy", [0, 1]))
@@ -575,13 +578,15 @@ def entry_points(dtype=np.float64, seed=0):
     simple("tucker_mode_dot_copy_vector_keepdim", lambda t, v: tucker_mode_dot(t, v, 1, keep_dim=True, copy=True), lambda d: ((d.core, d.tf), d.vec))
     simple("tucker_mode_dot_inplace_matrix", lambda t, Mx: tucker_mode_dot(t, Mx, 1, copy=False), lambda d: (tkt(d), d.mat), inplace=[0])
     simple("tucker_mode_dot_inplace_vector", lambda t, v: tucker_mode_dot(t, v, 1, copy=False), lambda d: ((d.core, d.tf), d.vec), inplace=[0])
-    simple("tucker_methods", lambda t: (t.to_tensor(), t.to_vec(), t.to_unfolded(0), t.tucker_copy(), t.normalize(), t.mode_dot(np.ones((2, 3), dtype=dtype), 1, copy=True)), lambda d: (tkt(d),))
+    simple("tucker_methods", lambda t: (t.to_tensor(), t.to_vec(), t.to_unfolded(0), t.tucker_copy(), t.mode_dot(np.ones((2, 3), dtype=dtype), 1, copy=True)), lambda d: (tkt(d),))
+    simple("tucker_normalize_method", lambda t: t.normalize(), lambda d: (tkt(d),), inplace=[0], skel=("KTuckerNormalizeMethod", [0]))
     ttf = lambda d: [d.rs.rand(1, 3, 2).astype(dtype), d.rs.rand(2, 4, 2).astype(dtype), d.rs.rand(2, 2, 1).astype(dtype)]
     simple("tt_to_tensor_etc", lambda f: (tt_to_tensor(f), tt_to_unfolded(f, 1), tt_to_vec(f), pad_tt_rank(f, n_padding=1)), lambda d: (ttf(d),))
     simple("tt_obj", lambda f: (f.to_tensor(), f.to_vec(), f.to_unfolded(0)), lambda d: (TTTensor(ttf(d)),))
     trf = lambda d: [d.rs.rand(2, 3, 2).astype(dtype), d.rs.rand(2, 4, 2).astype(dtype), d.rs.rand(2, 2, 2).astype(dtype)]
     simple("tr_to_tensor_etc", lambda f: (tr_to_tensor(f), tr_to_unfolded(f, 1), tr_to_vec(f)), lambda d: (trf(d),))
     ttm = lambda d: [d.rs.rand(1, 2, 2, 2).astype(dtype), d.rs.rand(2, 3, 3, 1).astype(dtype)]
+    ttm_of = lambda f: [np.ones((1, 2, 2, 2), dtype=dtype), np.ones((2, 3, 3, 1), dtype=dtype)]
     simple("tt_matrix_to_tensor_etc", lambda f: (tt_matrix_to_tensor(f), tt_matrix_to_matrix(f), tt_matrix_to_vec(f)), lambda d: (ttm(d),))
     P2 = ("KP2Slices", [0])
     simple("parafac2_to_slices_weights", lambda p: parafac2_to_slices(p), lambda d: (p2t(d),), skel=P2)
@@ -630,11 +635,108 @@ def entry_points(dtype=np.float64, seed=0):
     simple("compress_threshold_tensor", lambda X: svd_compress_tensor_slices(X, compression_threshold=0.1), lambda d: (d.X,))
     simple("decompress", lambda p, lm: svd_decompress_parafac2_tensor(p, lm), lambda d: (lambda p: (p, [d.rs.rand(6, p[2][i].shape[0]).astype(dtype) for i in range(3)]))(p2t(d)))
     simple("decompress_none_obj", lambda p, lm: svd_decompress_parafac2_tensor(p, lm), lambda d: (lambda p: (Parafac2Tensor(p), [None, d.rs.rand(6, p[2][1].shape[0]).astype(dtype), None]))(p2t(d)))
+    # ---------------------------------------------------------------- round 2: the rest of the public surface
+    from tensorly.base import vec_to_tensor, partial_fold, partial_vec_to_tensor, matricize
+    from tensorly.contrib.decomposition._tt_cross import maxvol
+    from tensorly.contrib.decomposition.tt_TTOI import tensor_train_OI
+    from tensorly.decomposition._constrained_cp import initialize_constrained_parafac, ConstrainedCP
+    from tensorly.decomposition._cp import sparsify_tensor, error_calc, RandomizedCP
+    from tensorly.decomposition._cp_power import CPPower
+    from tensorly.decomposition._nn_cp import CP_NN
+    from tensorly.decomposition._parafac2 import initialize_decomposition, Parafac2
+    from tensorly.decomposition._symmetric_cp import SymmetricCP
+    from tensorly.decomposition._tr_als import TensorRingALS, TensorRingALSSampled
+    from tensorly.decomposition._tr_svd import TensorRing
+    from tensorly.decomposition._tt import TensorTrain, TensorTrainMatrix
+    from tensorly.decomposition._tucker import Tucker_NN, Tucker_NN_HALS
+    from tensorly.metrics.entropy import tt_vonneumann_entropy
+    from tensorly.metrics.regression import reflective_correlation_coefficient, covariance, variance, standard_deviation
+    from tensorly.random.base import random_tensor, random_tt_matrix
+    from tensorly.tenalg.core_tenalg.mttkrp import unfolding_dot_khatri_rao_memory
+    from tensorly.tenalg.proximal import validate_constraints
+    from tensorly.tenalg.svd import make_svd_non_negative, randomized_range_finder, svd_checks, truncated_svd
+    from tensorly.tr_tensor import TRTensor
+    from tensorly.tt_matrix import validate_tt_matrix_rank, tt_matrix_to_unfolded, TTMatrix
+    from tensorly.solvers.penalizations import process_regularization_weights
+
+    PRW = "tensorly.solvers.penalizations.process_regularization_weights"
+    PW = ("KProcRegWeights", [0, 1])
+    simple("process_regularization_weights_none_entries", lambda r, sp: process_regularization_weights(r, sp, 3), lambda d: ([None, 0.5, None], [0.1, None, None]), skel=PW, ep=PRW)
+    simple("process_regularization_weights_degenerate", lambda r, sp: process_regularization_weights(r, sp, 3), lambda d: ([0, 0, 0], [0.1, 0, 0.3]), skel=("KProcRegWeightsRidge", [0, 1]), ep=PRW)
+    simple("process_regularization_weights_plain_lists", lambda r, sp: process_regularization_weights(r, sp, 4), lambda d: ([0, 0, 2, 0], [1, 2, 0, 4]), skel=("KProcRegWeightsPlain", [0, 1]), ep=PRW)
+    simple("process_regularization_weights_scalars", lambda r, sp: process_regularization_weights(r, sp, 3), lambda d: (None, 0.1), ep=PRW)
+    simple("process_regularization_weights_scalar_and_list", lambda r, sp: process_regularization_weights(r, sp, 3), lambda d: (0.5, [0.1, 0.2, 0.3]), ep=PRW)
+    simple("base_fold_family", lambda v, M, P_: (vec_to_tensor(v, (3, 4, 5)), partial_fold(M, 0, (4, 3, 5), skip_begin=1), partial_vec_to_tensor(P_, (4, 3, 5)), matricize(tl.reshape(v, (3, 4, 5)), [0, 2], [1]), matricize(tl.reshape(v, (3, 4, 5)), [1])),
+           lambda d: (d.rs.rand(60).astype(dtype), d.rs.rand(4, 3, 5).astype(dtype), d.rs.rand(4, 15).astype(dtype)))
+    simple("maxvol", lambda A: maxvol(A), lambda d: (d.M,))
+    simple("tensor_train_OI", lambda X, r: tensor_train_OI(X, r, n_iter=2), lambda d: (d.X, [1, 2, 2, 1]))
+    simple("tensor_train_OI_trajectory", lambda X, r: tensor_train_OI(X, r, n_iter=1, trajectory=True), lambda d: (d.X, (1, 2, 2, 1)))
+    simple("initialize_constrained_user", lambda X, i: initialize_constrained_parafac(X, R, init=i, non_negative=True), lambda d: (d.X, (d.w, d.fsn)))
+    simple("initialize_constrained_user_cptensor_l1", lambda X, i: initialize_constrained_parafac(X, R, init=i, l1_reg=0.4), lambda d: (d.X, cpt(d)))
+    simple("initialize_constrained_user_list_simplex", lambda X, i: initialize_constrained_parafac(X, R, init=i, simplex=1.0), lambda d: (d.X, [d.w, d.fs]))
+    simple("ConstrainedCP_class_init", lambda X, i, fm: ConstrainedCP(R, n_iter_max=2, init=i, fixed_modes=fm, non_negative=True).fit_transform(X), lambda d: (d.X, (d.w, d.fsn), [0, 2]))
+    simple("constrained_init_unimodal_fixed_last", lambda X, i, fm: constrained_parafac(X, R, n_iter_max=2, init=i, fixed_modes=fm, unimodality=True), lambda d: (d.X, (d.w, d.fs), [1, 2]))
+    simple("constrained_init_hardsparse_normalize", lambda X, i, hs: constrained_parafac(X, R, n_iter_max=2, init=i, hard_sparsity=hs), lambda d: (d.X, (d.w1, d.fs), [2, 2, 2]))
+    simple("sparsify_tensor", lambda X: (sparsify_tensor(X, 7), sparsify_tensor(X, 10 ** 6)), lambda d: (d.X - 0.5,))
+    simple("error_calc_mask", lambda X, w, fs, m: error_calc(X, tl.norm(X, 2), w, fs, 0, m), lambda d: (d.X, d.w, d.fs, d.mask))
+    simple("error_calc_sparsity_mttkrp", lambda X, w, fs, mk: (error_calc(X, tl.norm(X, 2), w, fs, 5, None), error_calc(X, tl.norm(X, 2), w, fs, 0, None, mk)), lambda d: (d.X, d.w, d.fs, d.rs.rand(5, R).astype(dtype)))
+    simple("RandomizedCP_class", lambda X: RandomizedCP(R, 8, n_iter_max=3, random_state=sd, verbose=0).fit_transform(X), lambda d: (d.X,))
+    simple("CPPower_class", lambda X: CPPower(R, n_repeat=2, n_iteration=2).fit_transform(X), lambda d: (d.X,))
+    simple("CP_NN_class_init_mask", lambda X, i, fm, m: CP_NN(R, n_iter_max=3, init=i, fixed_modes=fm, mask=m).fit_transform(X), lambda d: (d.X, (d.w, d.fs), [0], d.mask))
+    simple("parafac2_initialize_decomposition", lambda sl, i: (initialize_decomposition(sl, R, init="svd"), initialize_decomposition(sl, R, init=i)), lambda d: (d.slices, p2t(d, d.w1)))
+    simple("parafac2_initialize_decomposition_obj", lambda sl, i: initialize_decomposition(sl, R, init=i), lambda d: (tuple(d.slices), Parafac2Tensor(p2t(d, d.w1))))
+    simple("Parafac2_class_init_linesearch", lambda sl, i: Parafac2(R, n_iter_max=9, init=i, linesearch=True, normalize_factors=True, nn_modes=[0, 2], tol=0).fit_transform(sl), lambda d: (d.slices, p2t(d, d.w1)))
+    simple("parafac2_init_weights_list", lambda sl, i: parafac2(sl, R, n_iter_max=3, init=i, n_iter_parafac=2, return_errors=True), lambda d: (d.slices, list(p2t(d))))
+    simple("SymmetricCP_class", lambda X: SymmetricCP(R, n_repeat=2, n_iteration=2).fit_transform(X), lambda d: (d.rs.rand(3, 3, 3).astype(dtype),))
+    simple("TensorRing_classes", lambda X, r: (TensorRingALS(r, n_iter_max=2, random_state=sd).fit_transform(X), TensorRingALSSampled(r, 10, n_iter_max=2, random_state=sd).fit_transform(X), TensorRing(r).fit_transform(X), tensor_ring(X, r, mode=1)), lambda d: (d.X, [2, 2, 2, 2]))
+    simple("TensorTrain_classes", lambda X, r, Y, r2: (TensorTrain(r).fit_transform(X), TensorTrainMatrix(r2).fit_transform(Y)), lambda d: (d.X, [1, 2, 2, 1], d.rs.rand(2, 3, 2, 3).astype(dtype), [1, 2, 1]))
+    simple("Tucker_NN_classes_init", lambda X, i, sc, fm: (Tucker_NN([2, 2, 2], n_iter_max=2, init=i).fit_transform(X), Tucker_NN_HALS([2, 2, 2], n_iter_max=2, init=i, sparsity_coefficients=sc, fixed_modes=fm).fit_transform(X)), lambda d: (d.X, (d.core, d.tf), [0.1, None, 0.1], [1, 2]))
+    simple("nn_tucker_init_obj_nonneg", lambda X, i: non_negative_tucker(X, [2, 2, 2], n_iter_max=3, init=i, tol=0), lambda d: (d.X, TuckerTensor((d.core, d.tf))))
+    simple("nn_tucker_hals_init_core_sparsity_fail", lambda X, i, sc: non_negative_tucker_hals(X, [2, 2, 2], n_iter_max=2, init=i, sparsity_coefficients=sc, core_sparsity_coefficient=0.1, algorithm="bogus"), lambda d: (d.X, (d.core, d.tf), [0.1, 0.2, 0.3]))
+    simple("partial_tucker_init_mask", lambda X, i, mo, m: partial_tucker(X, [2, 2], modes=mo, n_iter_max=3, init=i, mask=m, tol=0), lambda d: (d.X, (d.rs.rand(2, 3, 2).astype(dtype), [d.tf[0], d.tf[2]]), [0, 2], d.mask))
+    simple("tucker_fixed_factors_mask", lambda X, i, ff, m: tucker(X, [2, 2, 2], n_iter_max=2, init=i, fixed_factors=ff, mask=m), lambda d: (d.X, (d.core, d.tf), [2, 0], d.mask))
+    simple("tt_entropy_and_regression_metrics", lambda T3, a, b: (tt_vonneumann_entropy(T3), reflective_correlation_coefficient(a, b), covariance(a, b), variance(a), standard_deviation(b, axis=0)),
+           lambda d: (TTTensor([d.rs.rand(1, 3, 2).astype(dtype), d.rs.rand(2, 3, 1).astype(dtype)]), d.Y2, d.Y2[::-1] + 0.1))
+    simple("random_tensor_tt_matrix", lambda s, s2: (random_tensor(s, random_state=sd), random_tt_matrix(s2, 2, random_state=sd), random_tt_matrix(s2, [1, 2, 1], full=True, random_state=sd)), lambda d: ([3, 4], [2, 3, 2, 3]))
+    simple("mttkrp_memory", lambda X, cp: (unfolding_dot_khatri_rao_memory(X, cp, 0), unfolding_dot_khatri_rao_memory(X, cp, 2)), lambda d: (d.X, (d.w, d.fs)))
+    simple("validate_constraints_options", lambda nn, l1, l2: validate_constraints(non_negative=nn, l1_reg=l1, l2_reg=l2, n_const=3), lambda d: ({0: True}, [0.1, 0.2, 0.3], None))
+    simple("validate_constraints_fail_two", lambda nn, l1: validate_constraints(non_negative=nn, l1_reg=l1, n_const=3), lambda d: ({0: True}, {0: 0.1}))
+    simple("svd_helpers", lambda M: (truncated_svd(M, 2), svd_checks(M, 9), randomized_range_finder(M, 2, random_state=sd), make_svd_non_negative(M, *truncated_svd(M, 2)), make_svd_non_negative(M, *truncated_svd(M, 2), nntype="nndsvda")), lambda d: (d.M,))
+    simple("svd_make_nonneg_user_USV", lambda M, U, S, V: make_svd_non_negative(M, U, S, V), lambda d: (d.M,) + tuple(np.asarray(x, dtype=dtype) for x in np.linalg.svd(d.M.astype(np.float64), full_matrices=False)))
+    simple("svd_interface_mask_repeats_flip", lambda M, m: tl.svd_interface(M, n_eigenvecs=2, mask=m, n_iter_mask_imputation=3, flip_sign=True), lambda d: (d.M - 0.5, (d.rs.rand(6, 4) > 0.3)))
+    simple("tr_ttm_objects", lambda f, g: (TRTensor(f).to_tensor(), TRTensor(f).to_unfolded(1), TRTensor(f).to_vec(), TTMatrix(g).to_tensor(), TTMatrix(g).to_matrix(), TTMatrix(g).to_vec(), tt_matrix_to_unfolded(g, 1), validate_tt_matrix_rank((2, 3, 2, 3), "same")), lambda d: (trf(d), ttm(d)))
+    simple("tt_obj_inplace_flag", lambda f: (TTTensor(f, inplace=True).to_tensor(), TTMatrix(ttm_of(f), inplace=True).to_matrix()), lambda d: (ttf(d),))
+    # other orders: the sweeps / list surgery run over 2 and 4 modes
+    simple("parafac_init_order2_fixed_mask", lambda X, i, fm, m: parafac(X, R, n_iter_max=3, init=i, fixed_modes=fm, mask=m), lambda d: (d.X[:, :, 0], (d.w, d.fs[:2]), [0], d.mask[:, :, 0]))
+    o4 = lambda d: (d.rs.rand(3, 2, 4, 3).astype(dtype), (d.w, [(d.rs.rand(s, R) + 0.1).astype(dtype) for s in (3, 2, 4, 3)]))
+    simple("parafac_init_order4_fixed_mask", lambda X, i, fm, m: parafac(X, R, n_iter_max=3, init=i, fixed_modes=fm, mask=m, tol=0), lambda d: o4(d) + ([1, 3], (d.rs.rand(3, 2, 4, 3) > 0.2).astype(dtype)))
+    simple("nn_parafac_hals_init_order4", lambda X, i, sc, fm: non_negative_parafac_hals(X, R, n_iter_max=2, init=i, sparsity_coefficients=sc, fixed_modes=fm), lambda d: o4(d) + ([0.1, None, 0.1, 0.1], [1]))
+    simple("nn_parafac_init_order4_normalize", lambda X, i, fm: non_negative_parafac(X, R, n_iter_max=2, init=i, fixed_modes=fm, normalize_factors=True), lambda d: o4(d) + ((0, 2),))
+    simple("tucker_init_order2_mask", lambda X, i, m: tucker(X, [2, 2], n_iter_max=3, init=i, mask=m, tol=0), lambda d: (d.X[:, :, 0], (d.core[:, :, 0], d.tf[:2]), d.mask[:, :, 0]))
+    simple("nn_tucker_hals_init_order4", lambda X, i: non_negative_tucker_hals(X, [2, 2, 2, 2], n_iter_max=2, init=i), lambda d: (o4(d)[0], ((d.rs.rand(2, 2, 2, 2) + 0.1).astype(dtype), [(d.rs.rand(s, 2) + 0.1).astype(dtype) for s in (3, 2, 4, 3)])))
+    simple("cp_normalize_flip_permute_order4", lambda cp: (cp_normalize(cp), cp_flip_sign(cp, mode=2), cp_to_tensor(cp), cp_mode_dot(cp, np.ones(4, dtype=dtype), 2, copy=True)), lambda d: (o4(d)[1],))
+    # more option sets of the anchored decompositions with user initialisations
+    simple("parafac_init_mask_linesearch", lambda X, i, m: parafac(X, R, n_iter_max=12, init=i, mask=m, linesearch=True, tol=1e-14), lambda d: (d.X, (d.w, d.fs), d.mask))
+    simple("parafac_init_mask_sparsity_errors", lambda X, i, m: parafac(X, R, n_iter_max=3, init=i, mask=m, sparsity=0.2, return_errors=True, tol=0), lambda d: (d.X, cpt(d), d.mask))
+    simple("parafac_init_normalize_fixed_callback", lambda X, i, fm: parafac(X, R, n_iter_max=3, init=i, fixed_modes=fm, normalize_factors=True, callback=lambda cp, e: None), lambda d: (d.X, (d.w, d.fs), [0, 1]))
+    simple("parafac_init_orth_l2_notol", lambda X, i: parafac(X, R, n_iter_max=3, init=i, orthogonalise=2, l2_reg=0.3, tol=0), lambda d: (d.X, [d.w, d.fs]))
+    simple("randomised_parafac_init_cptensor_fail_samples", lambda X, i: randomised_parafac(X, R, n_samples=0, n_iter_max=2, init=i, random_state=sd), lambda d: (d.X, cpt(d)))
+    simple("nn_parafac_hals_init_normalize_callback_fail", lambda X, i, sc: non_negative_parafac_hals(X, R, n_iter_max=3, init=i, sparsity_coefficients=sc, normalize_factors=True, callback=_Raise(2)), lambda d: (d.X, (d.w, d.fs), (0.1, 0.1, 0.1)))
+    simple("nn_parafac_hals_init_nnmodes_subset", lambda X, i, nn: non_negative_parafac_hals(X, R, n_iter_max=2, init=i, nn_modes=nn), lambda d: (d.X, cpt(d), {0, 2}))
+    simple("active_set_warm_matrix_rowvec", lambda a, b, x: active_set_nnls(a, b, x), lambda d: (asb(d), asU(d), asx(d).reshape(1, 4)), skel=AK)
+    simple("hals_nnls_warm_nonzero_rows_zero_start", lambda a, b, V: hals_nnls(a, b, V, n_iter_max=3, nonzero_rows=True, epsilon=1e-6), lambda d: (d.UtM, d.UtU, np.zeros((4, 3), dtype=dtype)), inplace=[2], skel=HN)
+    simple("fista_warm_aliased_UtM", lambda a, b, x: fista(a, b, x, n_iter_max=4), lambda d: (lambda u: (u, d.UtU, u))(d.UtM + 1))
+    simple("admm_warm_aliased_dual", lambda a, b, x, dv: admm(a.T, b, x, dv, n_const=1, order=0, non_negative=True, n_iter_max=4), lambda d: (lambda z: (d.UtM, d.UtU, z, z))(d.rs.rand(3, 4).astype(dtype)))
+    simple("cp_regressor_fit_predict_twice", lambda X, y: (lambda m: (m.fit(X, y), m.predict(X), m.fit(X, y), m.get_params()))(CPRegressor(2, random_state=sd, verbose=0, n_iter_max=3, reg_W=0.5)), lambda d: (d.X, d.y))
+    simple("tucker_regressor_fit_predict_twice", lambda X, y: (lambda m: (m.fit(X, y), m.predict(X), m.fit(X, y)))(TuckerRegressor([2, 2], random_state=sd, verbose=0, n_iter_max=3, reg_W=0.5)), lambda d: (d.X, d.y))
+    simple("cp_plsr_transform_Y_then_predict", lambda X, Y, X2, Y2: (lambda m: (m.transform(X2, Y2), m.predict(X2), m.transform(X2), m.fit_transform(X, Y)))(CP_PLSR(2, random_state=sd).fit(X, Y)), lambda d: (d.X, d.Y2, d.X + 0.5, d.Y2 * 2))
+    simple("robust_pca_mask_bool_regs", lambda X, m: robust_pca(X, mask=m, n_iter_max=4, reg_E=0.5, reg_J=0.5, verbose=0), lambda d: (d.X - 0.5, d.mask > 0))
     return E
 
 
 # ============================================================================ running one configuration
 QUICK_VARIANTS = ["fresh", "transposed", "sliced"]
+HEAVY = {"nn_parafac_hals_init_exact_nnmodes"}      # > 1 s CPU per call (exact HALS: 50000 inner iterations): one kind in the quick tier
 ALL_VARIANTS = ["fresh", "transposed", "sliced", "strided"]
 
 
@@ -686,7 +788,7 @@ def plan(tier, rng):
     cases = []
     if tier == "quick":
         for n in names:
-            for v in QUICK_VARIANTS:
+            for v in (["transposed"] if n in HEAVY else QUICK_VARIANTS):
                 cases.append((n, v, "float64", 0))
     else:
         for n in names:
@@ -706,6 +808,9 @@ def run(chk):
     t_impl = time.time()
     for (name, variant, dtype, seed) in plan(chk.tier, rng):
         r = run_config(name, variant, dtype, seed)
+        if r["outcome"] == "crash" and r["detail"] == "timeout":      # loaded machine: never a verdict
+            chk.hist("outcome", "skipped_timeout")
+            continue
         cid = len(cases)
         cases.append(case_literal(cid, r))
         meta.append((name, variant, dtype, seed, r["outcome"], [f"{p} ({w})" for _, p, w in r["changed"]]))
@@ -722,7 +827,7 @@ def run(chk):
                         "changed": meta[-1][5], "paths": [o["path"] for o in r["heap"].objs][:12]})
         msg = predicate(r)
         if msg:
-            chk.finding(f"tensorly:{name}", {"config": name, "variant": variant, "dtype": dtype, "data_seed": seed,
+            chk.finding(r["spec"].get("ep") or f"tensorly:{name}", {"config": name, "variant": variant, "dtype": dtype, "data_seed": seed,
                                              "outcome": r["outcome"], "detail": r["detail"]}, msg, "C15_footprint")
     chk.notes.append(f"implementation calls: {len(cases)} in {time.time() - t_impl:.1f}s")
     failing, n_eval, broken = C.run_case_shards("C15", HEADER, "case", cases, shard=150)
